@@ -27,7 +27,12 @@ def profiles(tier):
     return [("MCGenAlias", {"MAXSTMTS": 4, "MAXDEPTH": 2, "EVENTS": 1}),
             ("MCGenMemFn", {"MAXSTMTS": 3 if q else 4, "MAXDEPTH": 3, "EVENTS": 1}),
             ("MCGenMemArr", {"MAXSTMTS": 3 if q else 4, "MAXDEPTH": 3, "EVENTS": 1}),
-            ("MCGenStr", {"MAXSTMTS": 3 if q else 4, "MAXDEPTH": 3, "EVENTS": 1})]
+            ("MCGenStr", {"MAXSTMTS": 3 if q else 4, "MAXDEPTH": 3, "EVENTS": 1}),
+            # the same routes with strings longer than any pool size class (arena-fallback storage)
+            ("MCGenMemRet", {"MAXSTMTS": 3, "MAXDEPTH": 2, "EVENTS": 1, "LONGSTR": "0"}),
+            ("MCGenMemRet", {"MAXSTMTS": 3, "MAXDEPTH": 2, "EVENTS": 1, "LONGSTR": "1"}),
+            ("MCGenMemFn", {"MAXSTMTS": 3 if q else 4, "MAXDEPTH": 3, "EVENTS": 1, "LONGSTR": "1"}),
+            ("MCGenAlias", {"MAXSTMTS": 4, "MAXDEPTH": 2, "EVENTS": 1, "LONGSTR": "1"})]
 
 
 def run(tier):
